@@ -2,13 +2,33 @@ package c17
 
 import (
 	"fmt"
+	"sort"
 	"strings"
 )
 
 // testProgram renders cmd/t/main.go: a reflective driver (static text) plus the list of root types.
-func testProgram(roots []string, seed uint64, trials int) string {
+//
+// tparamFields: generic struct name -> its fields whose type is a bare type parameter.  The generated method of a generic
+// struct can only assign such a field (out.F = in.F; T has no methods), so when the type ARGUMENT is a map, a slice-carrying
+// struct ... the container behind it is shared between copy and original.  The check's domain keeps to the documented
+// assumption "type arguments of instantiated generic structs are scalars" for the no-sharing sentence: containers reached
+// through a type-parameter field are filled and compared (deep equality) but not mutated.  Everything else about such a
+// package (compiles, same on later runs, nil, equality, no sharing in all other fields) is judged as usual.
+func testProgram(roots []string, seed uint64, trials int, tparamFields map[string][]string) string {
 	var b strings.Builder
 	b.WriteString(progHead)
+	b.WriteString("\nvar tparamFields = map[string]bool{\n")
+	var keys []string
+	for g, fs := range tparamFields {
+		for _, f := range fs {
+			keys = append(keys, g+"."+f)
+		}
+	}
+	sort.Strings(keys)
+	for _, k := range keys {
+		fmt.Fprintf(&b, "\t%q: true,\n", k)
+	}
+	b.WriteString("}\n")
 	fmt.Fprintf(&b, "\nconst baseSeed uint64 = %d\nconst trials = %d\n\nvar roots = []any{\n", seed, trials)
 	for _, r := range roots {
 		fmt.Fprintf(&b, "\t%s,\n", r)
@@ -215,11 +235,29 @@ func bump(v reflect.Value) {
 
 // mutate appends to / assigns into every slice and map reachable from v through struct fields (any depth),
 // and assigns every scalar field.  containers counts the slices and maps touched, depth the deepest one.
-func mutate(v reflect.Value, depth int, containers *int, maxDepth *int) {
+//
+// A field whose declared type is a bare type parameter of a generic struct (tparamFields) is assigned by the generated
+// method whatever the type argument is: containers below it are not mutated (shared = true), see testProgram.
+func mutate(v reflect.Value, depth int, containers *int, maxDepth *int) { mutateS(v, depth, containers, maxDepth, false) }
+
+func originName(t reflect.Type) string {
+	n := t.Name()
+	if i := strings.IndexByte(n, '['); i >= 0 {
+		return n[:i]
+	}
+	return n
+}
+
+func mutateS(v reflect.Value, depth int, containers *int, maxDepth *int, shared bool) {
+	mutate := func(v reflect.Value, depth int, containers *int, maxDepth *int) { mutateS(v, depth, containers, maxDepth, shared) }
+	if shared && (v.Kind() == reflect.Slice || v.Kind() == reflect.Map || v.Kind() == reflect.Pointer) {
+		return
+	}
 	switch v.Kind() {
 	case reflect.Struct:
+		on := originName(v.Type())
 		for i := 0; i < v.NumField(); i++ {
-			mutate(v.Field(i), depth+1, containers, maxDepth)
+			mutateS(v.Field(i), depth+1, containers, maxDepth, shared || tparamFields[on+"."+v.Type().Field(i).Name])
 		}
 	case reflect.Slice:
 		*containers++
